@@ -24,6 +24,7 @@ CLEANUP_SQL = {"ROLLBACK", "DISCARD ALL", "DEALLOCATE ALL", "RESET ALL", "RESET 
 KNOWN_TEXT = {
     "F19-flush-dropped": "Flush ('H') is not forwarded: `Parse, Flush` gets no ParseComplete until a later Sync (input: P H, then S)",
     "F20-lone-sync-answered-locally": "a Sync with nothing buffered is answered by the pooler itself and not forwarded to the server (input: a single S)",
+    "F30-query-overtakes-open-batch": "a simple Query written while Parse/Bind/... of an open batch are still buffered is sent to the server ahead of them (input: inside BEGIN, P(s1) Q S arrives at the server as Q P S)",
     "F21c-extended-copy-needs-sync": "extended-protocol COPY FROM STDIN: after CopyDone pgcat waits for a ReadyForQuery that PostgreSQL sends only after the client's Sync (input: P/B/E(COPY t FROM STDIN)/S, d, c, S)",
 }
 
@@ -126,15 +127,17 @@ def coq_frames(fs):
 
 
 def ck(b):
-    a = 7
+    """order-sensitive checksum without division (cheap under vm_compute): (sum of bytes, sum of prefix sums)"""
+    s1 = s2 = 0
     for x in b:
-        a = (a * 31 + x + 1) % 1000000007
-    return a
+        s1 += x + 1
+        s2 += s1
+    return s2 + s1
 
 
 PREAMBLE = """From Coq Require Import ZArith List Bool. Import ListNotations.
 From PV Require Import Gen.RelayConsts Relay.Model Relay.Witness. Open Scope Z_scope.
-Definition ck (b : bytes) : Z := fold_left (fun a x => (a * 31 + x + 1) mod 1000000007) b 7.
+Definition ck (b : bytes) : Z := let '(s1, s2) := fold_left (fun a x => let s1 := fst a + x + 1 in (s1, snd a + s1)) b (0, 0) in s2 + s1.
 Definition R (b n : Z) : bytes := repeat b (Z.to_nat n).
 (* glue: the reply to exchange i becomes available when its request was forwarded; what an
    earlier exchange left unread is still in the socket *)
@@ -406,7 +409,10 @@ def client_cuts(g, msgs_bytes):
     return g.cuts(fs, 5) if g.rng.random() < 0.5 else []
 
 
-def make_scenarios(run, g, quick):
+PENDING_ID = "F30-query-overtakes-open-batch"      # run only once known_findings.jsonl has a decision (known | fixed)
+
+
+def make_scenarios(run, g, quick, listed=None):
     """-> list of (meta, steps).  meta: kind, exchanges [{send: [...msgs], mode: copy?, until, count, expect}], known"""
     rng = run.rng
     scns = []
@@ -505,6 +511,19 @@ def make_scenarios(run, g, quick):
     co = encs([fC("COPY 1"), FH, ("d", b"1\n"), Fc, fC("COPY 1"), fZ("I")])
     add("regress-F21b", [exch([{"t": "Q", "sql": "COPY t FROM STDIN /*mock: copy_reply_raw=%s*/" % co.hex()}], until="G"),
                          exch([{"t": "d", "data": "1\n"}, {"t": "c"}], copy=True), exch([{"t": "Q", "sql": "SELECT 2"}])])
+    cg = encs([fC("COPY 1"), FG])
+    cz = encs([fC("COPY 2"), fZ("I")])
+    for label, pre in (("copy-copy", []), ("copy-copy-in-txn", [exch([{"t": "Q", "sql": "BEGIN"}])])):
+        add(label, pre + [exch([{"t": "Q", "sql": "COPY a FROM STDIN /*mock: copy_reply_raw=%s, copy_reply_raw2=%s*/; COPY b FROM STDIN" % (cg.hex(), cz.hex())}], until="G"),
+                          exch([{"t": "d", "data": "1\n"}, {"t": "c"}], copy=True, until="G"),
+                          exch([{"t": "d", "data": "2\n"}, {"t": "c"}], copy=True),
+                          exch([{"t": "Q", "sql": "COMMIT" if pre else "SELECT 2"}])],
+            known=None)                                            # F29, repaired in 628c2ec: must complete
+    st = (listed or {}).get(PENDING_ID)
+    if st:
+        add("query-inside-batch", [exch([{"t": "Q", "sql": "BEGIN"}]),
+                                   exch([{"t": "P", "name": "", "sql": "SELECT 1"}, {"t": "Q", "sql": "SELECT 2"}, {"t": "S"}], count=2),
+                                   exch([{"t": "Q", "sql": "COMMIT"}])], known=PENDING_ID if st == "known" else None)
     add("known-F20", [exch([{"t": "Q", "sql": "SELECT 1"}]), exch([{"t": "S"}], expect="local")], known="F20-lone-sync-answered-locally")
     add("known-F19", [exch([{"t": "P", "name": "", "sql": "SELECT 1"}, {"t": "H"}], until="1", expect="silent", timeout=500),
                       exch([{"t": "S"}])], known="F19-flush-dropped")
@@ -616,12 +635,17 @@ def analyse(run, g, s, res, known_ids):
 
 
 def relay_exchanges(s):
-    """exchanges in which pgcat reads from the server (a RelayLoop happens)"""
-    return [i for i, e in enumerate(s["ex"]) if e["expect"] in ("ok", "blocked")]
+    """(exchange index, first?) for every relay loop pgcat runs: one per exchange in which it reads from the
+    server, `count` of them when `count` Sync-terminated batches were pipelined in one write"""
+    out = []
+    for i, e in enumerate(s["ex"]):
+        if e["expect"] in ("ok", "blocked"):
+            out += [(i, k == 0) for k in range(max(1, e["count"]))]
+    return out
 
 
 def model_exprs(s, obs):
-    reps = "[" + "; ".join(coq_frames(split_frames(obs["per"][i]["reply"])[0]) for i in relay_exchanges(s)) + "]"
+    reps = "[" + "; ".join(coq_frames(split_frames(obs["per"][i]["reply"])[0]) if first else "[]" for i, first in relay_exchanges(s)) + "]"
     ms = []
     for e, b in zip(s["ex"], obs["sent"]):
         for f in split_frames(b)[0]:
@@ -655,8 +679,12 @@ def check_wire(run, wire, quick, samples, distinct, known_ids):
     rng = run.rng
     thrD, thrd, thrc = gen_consts()
     g = Gen(rng, thrD, thrd, thrc)
-    scns = make_scenarios(run, g, quick)
+    listed = {e["id"]: e.get("status") for e in vlib.known_findings("C03")}
+    scns = make_scenarios(run, g, quick, listed)
+    if PENDING_ID not in listed:
+        run.cov["pending_decision"] = [PENDING_ID + ": scenario not run (no entry in known_findings.jsonl yet); theorem c03_query_inside_batch_refuted states it"]
     results = run_wire(wire, g, scns)
+    run.log("wire: %d scenarios run" % len(scns))
     exprs, idx, n_streams, hist = [], [], 0, {}
     reproduced = set()
     for si, (s, res) in enumerate(zip(scns, results)):
@@ -690,27 +718,40 @@ def check_wire(run, wire, quick, samples, distinct, known_ids):
             s = [x for x in scns if x["known"] == k][0]
             run.violation("counterexample", "%s reproduces and is not listed as known: %s" % (k, s["problem"]), {"input": {"kind": "wire", "scenario": strip(s)}, "monitor": s["problem"]})
     # the model on the same exchanges
+    run.log("wire: monitors done, evaluating the model on %d scenarios" % len(exprs))
     vals = vlib.coq_eval("c03b", PREAMBLE, exprs, shard=max(4, len(exprs) // 16 + 1))
+    run.log("wire: model evaluated")
     for si, v in zip(idx, vals):
         s = scns[si]
         obs = s["obs"]
         seq, cob = vlib.parse_coq(v)
         run.cov["traces_validated_against_impl"] += len(s["ex"])
         bad = None
-        for j, i in enumerate(relay_exchanges(s)):
-            e, p = s["ex"][i], obs["per"][i]
+        per_model = {}
+        for j, (i, first) in enumerate(relay_exchanges(s)):
             if j >= len(seq):
-                if seq and seq[-1][0] == 0 or not seq:
-                    bad = "model produced %d relay exchanges, scenario has more" % len(seq)
+                if not seq or seq[-1][0] == 0:
+                    bad = "model produced %d relay loops, scenario has more" % len(seq)
                 break
-            code, lens, mck, mlen = seq[j]
+            per_model.setdefault(i, []).append(seq[j])
+        for i, parts in per_model.items():
+            if bad:
+                break
+            p = obs["per"][i]
+            code = max(x[0] for x in parts)
+            mlen = sum(x[3] for x in parts)
             real_done = p["outcome"] == "ok"
             if (code == 0) != real_done:
                 bad = "exchange %d: model says %s, implementation %s" % (i, {0: "Done", 1: "Blocked", 2: "Failed", 3: "OutOfFuel"}[code], p["outcome"])
-                break
-            if (mlen, mck) != (len(p["got"]), ck(p["got"])):
-                bad = "exchange %d: model relays %d bytes (ck %d), implementation delivered %d (ck %d)" % (i, mlen, mck, len(p["got"]), ck(p["got"]))
-                break
+            elif mlen != len(p["got"]):
+                bad = "exchange %d: model relays %d bytes, implementation delivered %d" % (i, mlen, len(p["got"]))
+            else:
+                at = 0
+                for x in parts:                                     # chunk boundaries are irrelevant: compare the concatenation
+                    piece = p["got"][at:at + x[3]]
+                    at += x[3]
+                    if ck(piece) != x[2]:
+                        bad = "exchange %d: model and implementation relay different bytes" % i
         for i, e in enumerate(s["ex"]):
             if e["expect"] == "silent" and obs["per"][i]["got"] and not bad:
                 bad = "exchange %d: nothing should be relayed yet, implementation delivered %d bytes" % (i, len(obs["per"][i]["got"]))
